@@ -292,3 +292,297 @@ Proof.
     - intros r _. rewrite <- msum_scal_l. apply msum_ext. intros c _. ring. }
   lra.
 Qed.
+
+(* ---------------------------------------------------------------------------
+   Matrices equal below the dimension (what [retab] preserves)
+   --------------------------------------------------------------------------- *)
+Definition meq (n : nat) (A B : mat R) : Prop := forall r c, (r < n)%nat -> (c < n)%nat -> A r c = B r c.
+
+Lemma meq_retab n (A : mat R) : meq n (retab n n A) A.
+Proof. intros r c Hr Hc. apply retab_spec; assumption. Qed.
+
+Lemma meq_sym n A B : meq n A B -> meq n B A.
+Proof. intros H r c Hr Hc. symmetry. apply H; assumption. Qed.
+
+(* ---------------------------------------------------------------------------
+   Doolittle: closed forms of the two inner loops
+   --------------------------------------------------------------------------- *)
+Definition upper_body (i : nat) (a lo : mat R) : nat -> mat R -> mat R :=
+  fun k up =>
+    let total := sum_range n0 0 i (fun j => nmul (lo i j) (up j k)) in
+    mset up i k (nsub (a i k) total).
+Definition upper_row_len (i len : nat) (a lo up : mat R) : mat R := for_range i len (upper_body i a lo) up.
+
+Lemma lu_upper_row_len n i a lo up : lu_upper_row n i a lo up = upper_row_len i (n - i) a lo up.
+Proof. reflexivity. Qed.
+
+Lemma upper_row_len_spec i len a lo up :
+  (forall c, (i <= c < i + len)%nat ->
+      upper_row_len i len a lo up i c = a i c - msum 0 i (fun j => lo i j * up j c)) /\
+  (forall r c, ~ (r = i /\ (i <= c < i + len)%nat) -> upper_row_len i len a lo up r c = up r c).
+Proof.
+  induction len as [|len [IH1 IH2]].
+  - split; [intros c Hc; lia|intros; reflexivity].
+  - unfold upper_row_len in *. rewrite for_range_S.
+    set (M := for_range i len (upper_body i a lo) up) in *.
+    unfold upper_body at 1. unfold upper_body at 1. cbv zeta.
+    split.
+    + intros c Hc. destruct (Nat.eq_dec c (i + len)) as [->|Hne].
+      * rewrite mset_same, sum_range_R. cbn [n0 nmul nsub RNum]. rewrite Rplus_0_l. f_equal.
+        apply msum_ext. intros t Ht. rewrite IH2 by lia. reflexivity.
+      * rewrite mset_other by (right; exact Hne). apply IH1. lia.
+    + intros r c Hn. rewrite mset_other.
+      * apply IH2. intros [H1 H2]. apply Hn. split; [exact H1|lia].
+      * destruct (Nat.eq_dec r i) as [->|Hr]; [right|left; exact Hr].
+        intro Hc. apply Hn. split; [reflexivity|lia].
+Qed.
+
+Definition lower_body (i : nat) (a up : mat R) : nat -> res (mat R) -> res (mat R) :=
+  fun k acc =>
+    match acc with
+    | Ok lo =>
+      if (k =? i)%nat then Ok (mset lo i i n1)
+      else if neqb (up i i) n0 then Err ESingularMatrix
+      else
+        let total := sum_range n0 0 i (fun j => nmul (lo k j) (up j i)) in
+        Ok (mset lo k i (ndiv (nsub (a k i) total) (up i i)))
+    | e => e
+    end.
+Definition lower_col_len (i len : nat) (a up lo : mat R) : res (mat R) :=
+  for_range i len (lower_body i a up) (Ok lo).
+
+Lemma lu_lower_col_len n i a up lo : lu_lower_col n i a up lo = lower_col_len i (n - i) a up lo.
+Proof. reflexivity. Qed.
+
+Lemma lower_col_len_S i len a up lo :
+  lower_col_len i (S len) a up lo = lower_body i a up (i + len)%nat (lower_col_len i len a up lo).
+Proof. apply for_range_S. Qed.
+
+Lemma lower_col_len_ok i len a up lo :
+  ((len <= 1)%nat \/ up i i <> 0) ->
+  exists M, lower_col_len i len a up lo = Ok M /\
+    ((0 < len)%nat -> M i i = 1) /\
+    (forall k, (i < k < i + len)%nat -> M k i = (a k i - msum 0 i (fun j => lo k j * up j i)) / up i i) /\
+    (forall r c, ~ (c = i /\ (i <= r < i + len)%nat) -> M r c = lo r c).
+Proof.
+  induction len as [|len IH]; intro H.
+  - exists lo. split; [reflexivity|]. split; [lia|]. split; [intros k Hk; lia|reflexivity].
+  - destruct IH as [M [HM [H1 [H2 H3]]]]; [destruct H as [H|H]; [left; lia|right; exact H]|].
+    rewrite lower_col_len_S, HM. unfold lower_body.
+    destruct (Nat.eqb_spec (i + len) i) as [E|E].
+    + assert (len = 0)%nat by lia. subst len.
+      exists (mset M i i n1). split; [reflexivity|]. split; [|split].
+      * intros _. apply mset_same.
+      * intros k Hk. lia.
+      * intros r c Hn. rewrite mset_other.
+        -- apply H3. intros [Hc Hr]. lia.
+        -- destruct (Nat.eq_dec c i) as [->|Hc]; [left|right; exact Hc].
+           intro Hr. apply Hn. split; [reflexivity|lia].
+    + assert (Hu : up i i <> 0) by (destruct H as [H|H]; [lia|exact H]).
+      replace (neqb (up i i) n0) with false
+        by (symmetry; cbn [neqb n0 RNum]; apply Reqb_false; exact Hu).
+      cbv zeta.
+      eexists. split; [reflexivity|]. split; [|split].
+      * intros _. rewrite mset_other by (left; lia). apply H1. lia.
+      * intros k Hk. destruct (Nat.eq_dec k (i + len)) as [->|Hne].
+        -- rewrite mset_same, sum_range_R. cbn [n0 nmul nsub ndiv RNum]. rewrite Rplus_0_l.
+           f_equal. f_equal. apply msum_ext. intros t Ht. rewrite H3 by lia. reflexivity.
+        -- rewrite mset_other by (left; exact Hne). apply H2. lia.
+      * intros r c Hn. rewrite mset_other.
+        -- apply H3. intros [Hc Hr]. apply Hn. split; [exact Hc|lia].
+        -- destruct (Nat.eq_dec c i) as [->|Hc]; [left|right; exact Hc].
+           intro Hr. apply Hn. split; [reflexivity|lia].
+Qed.
+
+Lemma lower_col_len_err i len a up lo :
+  (2 <= len)%nat -> up i i = 0 -> lower_col_len i len a up lo = Err ESingularMatrix.
+Proof.
+  induction len as [|len IH]; intros Hl Hu; [lia|].
+  rewrite lower_col_len_S.
+  destruct (le_lt_dec 2 len) as [H2|H2].
+  - rewrite IH by assumption. reflexivity.
+  - destruct (lower_col_len_ok i len a up lo) as [M [HM _]]; [left; lia|].
+    rewrite HM. unfold lower_body.
+    destruct (Nat.eqb_spec (i + len) i) as [E|E]; [lia|].
+    replace (neqb (up i i) n0) with true
+      by (symmetry; cbn [neqb n0 RNum]; apply Reqb_true; exact Hu).
+    reflexivity.
+Qed.
+
+(* ---------------------------------------------------------------------------
+   Doolittle: the loop invariant — after i outer iterations the first i rows of
+   U and the first i columns of L satisfy the Doolittle recurrences, the rest is 0
+   --------------------------------------------------------------------------- *)
+Record LUInv (n : nat) (a : mat R) (i : nat) (lo up : mat R) : Prop := {
+  inv_up : forall r c, (r < n)%nat -> (c < n)%nat -> (r < i)%nat -> (r <= c)%nat ->
+             up r c = a r c - msum 0 r (fun j => lo r j * up j c);
+  inv_up0 : forall r c, (r < n)%nat -> (c < n)%nat -> ((i <= r)%nat \/ (c < r)%nat) -> up r c = 0;
+  inv_lo : forall r c, (r < n)%nat -> (c < n)%nat -> (c < i)%nat -> (c < r)%nat ->
+             lo r c = (a r c - msum 0 c (fun j => lo r j * up j c)) / up c c;
+  inv_lo1 : forall r, (r < n)%nat -> (r < i)%nat -> lo r r = 1;
+  inv_lo0 : forall r c, (r < n)%nat -> (c < n)%nat -> ((i <= c)%nat \/ (r < c)%nat) -> lo r c = 0;
+  inv_piv : forall c, (c < i)%nat -> (S c < n)%nat -> up c c <> 0
+}.
+
+Lemma LUInv_meq n a i lo up lo' up' :
+  meq n lo lo' -> meq n up up' -> LUInv n a i lo up -> LUInv n a i lo' up'.
+Proof.
+  intros El Eu [H1 H2 H3 H4 H5 H6]. constructor.
+  - intros r c Hr Hc Hri Hrc. rewrite <- Eu by assumption. rewrite H1 by assumption.
+    f_equal. apply msum_ext. intros t Ht. rewrite El, Eu by lia. reflexivity.
+  - intros r c Hr Hc H. rewrite <- Eu by assumption. apply H2; assumption.
+  - intros r c Hr Hc Hci Hcr. rewrite <- El by assumption. rewrite H3 by assumption.
+    rewrite (Eu c c) by assumption. f_equal. f_equal.
+    apply msum_ext. intros t Ht. rewrite El, Eu by lia. reflexivity.
+  - intros r Hr Hri. rewrite <- El by assumption. apply H4; assumption.
+  - intros r c Hr Hc H. rewrite <- El by assumption. apply H5; assumption.
+  - intros c Hci Hcn. rewrite <- Eu by lia. apply H6; assumption.
+Qed.
+
+Lemma LUInv_init n a : LUInv n a 0 (mconst 0) (mconst 0).
+Proof. constructor; intros; try lia; reflexivity. Qed.
+
+Lemma lu_inner_step n a i lo up :
+  (i < n)%nat -> LUInv n a i lo up ->
+  let up1 := lu_upper_row n i a lo up in
+  lu_lower_col n i a up1 lo = Err ESingularMatrix \/
+  exists lo1, lu_lower_col n i a up1 lo = Ok lo1 /\ LUInv n a (S i) lo1 up1.
+Proof.
+  intros Hi [I1 I2 I3 I4 I5 I6]. cbv zeta.
+  rewrite lu_upper_row_len, lu_lower_col_len.
+  destruct (upper_row_len_spec i (n - i) a lo up) as [HU1 HU2].
+  set (up1 := upper_row_len i (n - i) a lo up) in *.
+  assert (common : ((n - i <= 1)%nat \/ up1 i i <> 0) -> ((S i < n)%nat -> up1 i i <> 0) ->
+            exists lo1, lower_col_len i (n - i) a up1 lo = Ok lo1 /\ LUInv n a (S i) lo1 up1).
+  { intros Hcase Hpiv.
+    destruct (lower_col_len_ok i (n - i) a up1 lo Hcase) as [M [HM [HM1 [HM2 HM3]]]].
+    exists M. split; [exact HM|].
+    constructor.
+    * intros r c Hr Hc Hri Hrc. destruct (Nat.eq_dec r i) as [->|Hne].
+      -- rewrite HU1 by lia. f_equal. apply msum_ext. intros t Ht.
+         rewrite HM3 by lia. rewrite HU2 by lia. reflexivity.
+      -- rewrite HU2 by lia. rewrite I1 by lia. f_equal. apply msum_ext. intros t Ht.
+         rewrite HM3 by lia. rewrite HU2 by lia. reflexivity.
+    * intros r c Hr Hc H. rewrite HU2 by lia. apply I2; lia.
+    * intros r c Hr Hc Hci Hcr. destruct (Nat.eq_dec c i) as [->|Hne].
+      -- rewrite HM2 by lia. f_equal. f_equal. apply msum_ext. intros t Ht.
+         rewrite HM3 by lia. reflexivity.
+      -- rewrite HM3 by lia. rewrite I3 by lia. rewrite (HU2 c c) by lia. f_equal. f_equal.
+         apply msum_ext. intros t Ht. rewrite HM3 by lia. rewrite HU2 by lia. reflexivity.
+    * intros r Hr Hri. destruct (Nat.eq_dec r i) as [->|Hne]; [apply HM1; lia|].
+      rewrite HM3 by lia. apply I4; lia.
+    * intros r c Hr Hc H. rewrite HM3 by lia. apply I5; lia.
+    * intros c Hci Hcn. destruct (Nat.eq_dec c i) as [->|Hne]; [apply Hpiv; exact Hcn|].
+      rewrite HU2 by lia. apply I6; lia. }
+  destruct (le_lt_dec 2 (n - i)) as [H2|H2]; [destruct (Req_EM_T (up1 i i) 0) as [Hz|Hnz]|].
+  - left. apply lower_col_len_err; assumption.
+  - right. apply common; [right; exact Hnz|intros _; exact Hnz].
+  - right. apply common; [left; lia|intro; lia].
+Qed.
+
+Definition lu_post (n : nat) (a : mat R) (i : nat) (acc : res (mat R * mat R)) : Prop :=
+  match acc with
+  | Ok (lo, up) => LUInv n a i lo up
+  | Err e => e = ESingularMatrix
+  | Panic _ => False
+  end.
+
+Lemma lu_step_post n a i acc :
+  (i < n)%nat -> lu_post n a i acc -> lu_post n a (S i) (lu_step n a i acc).
+Proof.
+  intros Hi H. destruct acc as [[lo up]|e|w]; cbn [lu_step lu_post] in *; [|exact H|exact H].
+  destruct (lu_inner_step n a i lo up Hi H) as [E|[lo1 [E Hinv]]]; cbv zeta in *; rewrite E.
+  - reflexivity.
+  - cbn [lu_post]. eapply LUInv_meq; [| |exact Hinv]; apply meq_sym, meq_retab.
+Qed.
+
+Lemma lu_loop_post n a : lu_post n a n (for_range 0 n (lu_step n a) (Ok (mconst n0, mconst n0))).
+Proof.
+  pose proof (for_range_inv (lu_post n a) 0 n (lu_step n a) (Ok (mconst n0, mconst n0))) as H.
+  cbn [Nat.add] in H. apply H.
+  - cbn [lu_post]. apply LUInv_init.
+  - intros i acc Hi. apply lu_step_post. lia.
+Qed.
+
+Lemma lu_square n (a : mat R) : lu n n a = for_range 0 n (lu_step n a) (Ok (mconst n0, mconst n0)).
+Proof. unfold lu. rewrite Nat.eqb_refl. reflexivity. Qed.
+
+Lemma lu_ok_inv n a L U : lu n n a = Ok (L, U) -> LUInv n a n L U.
+Proof.
+  rewrite lu_square. intro H. pose proof (lu_loop_post n a) as P. rewrite H in P. exact P.
+Qed.
+
+(* ---- consequences of the final invariant ------------------------------------ *)
+Lemma LUInv_unit_lower n a L U : LUInv n a n L U -> unit_lower n L.
+Proof.
+  intros [_ _ _ I4 I5 _] i j Hi Hj. split.
+  - intros <-. apply I4; assumption.
+  - intro Hij. apply I5; try assumption. right; exact Hij.
+Qed.
+
+Lemma LUInv_upper_tri n a L U : LUInv n a n L U -> upper_tri n U.
+Proof. intros [_ I2 _ _ _ _] i j Hi Hj Hji. apply I2; try assumption. right; exact Hji. Qed.
+
+Lemma LUInv_reconstruct n a L U : LUInv n a n L U ->
+  forall i j, (i < n)%nat -> (j < n)%nat -> mprod n L U i j = a i j.
+Proof.
+  intros [I1 I2 I3 I4 I5 I6] i j Hi Hj. unfold mprod.
+  destruct (le_lt_dec i j) as [Hij|Hji].
+  - rewrite (msum_trunc (S i) n) by (try lia; intros t Ht; rewrite I5 by lia; ring).
+    cbn [msum]. rewrite Nat.add_0_l, I4 by assumption.
+    rewrite (I1 i j) by assumption. ring.
+  - rewrite (msum_trunc (S j) n) by (try lia; intros t Ht; rewrite (I2 t j) by lia; ring).
+    cbn [msum]. rewrite Nat.add_0_l. rewrite (I3 i j) by assumption.
+    field. apply I6; lia.
+Qed.
+
+(* ---- the C09 statements about lu -------------------------------------------- *)
+Lemma c09_nonsquare_lu : forall (h w : nat) (A : mat R), h <> w -> lu h w A = Err ENonSquareMatrix.
+Proof.
+  intros h w A H. unfold lu. apply Nat.eqb_neq in H. rewrite H. reflexivity.
+Qed.
+
+Lemma c09_lu_reconstruct : forall (n : nat) (A L U : mat R), lu n n A = Ok (L, U) ->
+  unit_lower n L /\ upper_tri n U /\
+  forall i j, (i < n)%nat -> (j < n)%nat -> mprod n L U i j = A i j.
+Proof.
+  intros n A L U H. apply lu_ok_inv in H. split; [|split].
+  - eapply LUInv_unit_lower; exact H.
+  - eapply LUInv_upper_tri; exact H.
+  - apply LUInv_reconstruct; exact H.
+Qed.
+
+(* outcome: never a panic, the only error is SingularMatrix, and a returned U has
+   non-zero pivots everywhere except possibly the last *)
+Lemma c09_lu_pivots : forall (n : nat) (A : mat R),
+  lu n n A = Err ESingularMatrix \/
+  exists L U, lu n n A = Ok (L, U) /\ forall i, (S i < n)%nat -> U i i <> 0.
+Proof.
+  intros n A. rewrite lu_square. pose proof (lu_loop_post n A) as P.
+  destruct (for_range 0 n (lu_step n A) (Ok (mconst n0, mconst n0))) as [[L U]|e|w]; cbn [lu_post] in P.
+  - right. exists L, U. split; [reflexivity|]. intros i Hi. apply (inv_piv _ _ _ _ _ P); lia.
+  - left. subst e. reflexivity.
+  - contradiction.
+Qed.
+
+(* a vanishing leading principal minor of order k < n (the leading k x k block has
+   a non-trivial left null vector) is refused *)
+Lemma c09_lu_zero_minor : forall (n k : nat) (A : mat R) (w : nat -> R),
+  (0 < k < n)%nat -> left_null k A w -> lu n n A = Err ESingularMatrix.
+Proof.
+  intros n k A w Hk [[i0 [Hi0 Hw0]] Hnull].
+  destruct (c09_lu_pivots n A) as [E|[L [U [E Hpiv]]]]; [exact E|exfalso].
+  pose proof (lu_ok_inv n A L U E) as Inv.
+  pose proof (LUInv_unit_lower _ _ _ _ Inv) as HL.
+  pose proof (LUInv_upper_tri _ _ _ _ Inv) as HU.
+  pose proof (LUInv_reconstruct _ _ _ _ Inv) as HR.
+  assert (HLk : unit_lower k L) by (intros i j Hi Hj; apply HL; lia).
+  assert (HUk : upper_tri k U) by (intros i j Hi Hj; apply HU; lia).
+  assert (Hdk : forall i, (i < k)%nat -> U i i <> 0) by (intros i Hi; apply Hpiv; lia).
+  assert (Hblock : forall r c, (r < k)%nat -> (c < k)%nat -> msum 0 k (fun t => L r t * U t c) = A r c).
+  { intros r c Hr Hc. rewrite <- (HR r c) by lia. unfold mprod. symmetry.
+    apply msum_trunc; [lia|]. intros t Ht. destruct (HL r t) as [_ Hz]; try lia. rewrite Hz by lia. ring. }
+  apply Hw0. apply (no_left_null k A); [|exact Hnull|exact Hi0].
+  intro b. destruct (tri_solvable k L U HLk HUk Hdk b) as [x Hx]. exists x.
+  intros r Hr. rewrite <- (Hx r Hr). apply msum_ext. intros c Hc. rewrite Hblock by lia. reflexivity.
+Qed.
